@@ -136,6 +136,7 @@ def replay_submod_fallback(model, r):
         for p_ in present:
             files[p_] = bad
         for n, t in files.items():
+            os.makedirs(os.path.dirname(os.path.join(d, n)), exist_ok=True)
             open(os.path.join(d, n), 'w').write(t)
         before = {n: hashlib.sha256(open(os.path.join(d, n), 'rb').read()).hexdigest() for n in files}
         pr = subprocess.run([rf, 'main.rs'], capture_output=True, text=True, env=run_env(), timeout=60, cwd=d)
@@ -147,6 +148,38 @@ def replay_submod_fallback(model, r):
 
 
 # ----------------------------------------------------------------------------------------------------------------------------- K2
+def ownership_is_not_owned_none(eng, st, kind):
+    """formula: the DirectoryOwnership inside SubModKind::External(path, ownership, module) is not Owned { relative: None }; None if the value has another shape"""
+    if not (isinstance(kind, Enum) and kind.payloads):
+        return None
+    ext = None
+    for i, pl in kind.payloads.items():
+        if isinstance(pl, Tup) and len(pl.items) == 3:
+            ext = (i, pl)
+    if ext is None:
+        return None
+    own = deref(eng, st, ext[1].items[1])
+    kd = kind.discr if not isinstance(kind.discr, int) else z3.BitVecVal(kind.discr, 64)
+    if isinstance(own, Tup):              # an aggregate of another crate's enum: the variant's name and its fields
+        if own.name != 'Owned' or not own.items:
+            return kd == ext[0]
+        rel = deref(eng, st, own.items[0])
+        if not isinstance(rel, Enum):
+            return kd == ext[0]
+        rd = rel.discr if not isinstance(rel.discr, int) else z3.BitVecVal(rel.discr, 64)
+        return z3.And(kd == ext[0], rd != 0)
+    if not isinstance(own, Enum):
+        return (kd == ext[0]) if isinstance(own, Opaque) else None
+    d = own.discr if not isinstance(own.discr, int) else z3.BitVecVal(own.discr, 64)
+    pl = own.payloads.get(0)
+    rel = deref(eng, st, pl.items[0]) if isinstance(pl, Tup) and pl.items else None
+    if not isinstance(rel, Enum):
+        return z3.BoolVal(True) if rel is not None else None
+    rd = rel.discr if not isinstance(rel.discr, int) else z3.BitVecVal(rel.discr, 64)
+    kd = kind.discr if not isinstance(kind.discr, int) else z3.BitVecVal(kind.discr, 64)
+    return z3.And(kd == ext[0], z3.Or(d != 0, rd != 0))
+
+
 def part_find_external_module(ctx, eng, pid, replay):
     idx, name = mod_error_indices(eng)
     eng.ext_enums = dict(getattr(eng, 'ext_enums', {}), ModError=idx)
@@ -197,6 +230,7 @@ def part_find_external_module(ctx, eng, pid, replay):
     finally:
         eng.lenient, eng.inline_only, eng.stubs, eng.unsupported_as_outcome = old
     nobl = 0
+    nown = [0]
     for has_attr_path, n_outside, outs, sv in results:
         mv = list(sv.values())
         for pi, o in enumerate(outs):
@@ -213,6 +247,14 @@ def part_find_external_module(ctx, eng, pid, replay):
             is_none = z3.And(v.discr == 0, opt.discr == 0) if isinstance(opt, Enum) else z3.BoolVal(False)
             is_some = z3.And(v.discr == 0, opt.discr == 1) if isinstance(opt, Enum) else z3.BoolVal(False)
             nobl += 1
+            if has_attr_path and isinstance(opt, Enum) and 1 in opt.payloads:
+                # rustc: a file named by #[path] owns its directory with no relative component - its children are looked up next to it
+                own_bad = ownership_is_not_owned_none(eng, o.state, deref(eng, o.state, opt.payloads[1].items[0]))
+                if os.environ.get('MIRSYM_DEBUG'):
+                    log('[K2] %s kind=%r own_bad=%r' % (tag, deref(eng, o.state, opt.payloads[1].items[0]), own_bad))
+                if own_bad is not None:
+                    ctx.prop(tag + '/a-file-named-by-a-path-attribute-owns-its-directory-without-a-relative-component', o.state.pc, z3.And(is_some, own_bad), mv, replay, twin=False)
+                    nown[0] += 1
             if has_attr_path:
                 ctx.prop(tag + '/a-path-attribute-replaces-the-lookup-by-name', o.state.pc, z3.BoolVal('lookup' in ev), mv, replay, twin=False)
             looked = 'lookup' in ev
@@ -251,11 +293,13 @@ def replay_find_external_module(model, r):
              ('a #[path] target wins over the file by name', {'main.rs': '#[path = "other.rs"]\nmod a;\n', 'other.rs': bad, 'a.rs': bad}, 0, ['other.rs']),
              ('a module file with an inner skip attribute is left alone', {'main.rs': 'mod a;\nmod b;\n', 'a.rs': '#![rustfmt::skip]\n' + bad, 'b.rs': bad}, 0, ['b.rs']),
              ('a module declared twice is formatted once', {'main.rs': 'mod a;\nmod b;\n', 'a.rs': '#[path = "b.rs"]\nmod again;\n', 'b.rs': bad}, 0, ['b.rs']),
-             ('a syntax error in a module file is an error', {'main.rs': 'mod a;\nmod b;\n', 'a.rs': 'fn f( {\n', 'b.rs': bad}, 1, [])]
+             ('a syntax error in a module file is an error', {'main.rs': 'mod a;\nmod b;\n', 'a.rs': 'fn f( {\n', 'b.rs': bad}, 1, []),
+             ('a child of a #[path] file is looked up next to that file', {'main.rs': '#[path = "imp.rs"]\nmod foo;\n', 'imp.rs': 'mod bar;\n', 'bar.rs': bad, 'imp/bar.rs': bad}, 0, ['bar.rs'])]
     for what, files, want_exit, want_changed in cases:
         shutil.rmtree(d, ignore_errors=True)
         os.makedirs(d)
         for n, t in files.items():
+            os.makedirs(os.path.dirname(os.path.join(d, n)), exist_ok=True)
             open(os.path.join(d, n), 'w').write(t)
         before = {n: hashlib.sha256(open(os.path.join(d, n), 'rb').read()).hexdigest() for n in files}
         pr = subprocess.run([rf, 'main.rs'], capture_output=True, text=True, env=run_env(), timeout=60, cwd=d)
